@@ -977,6 +977,7 @@ def r6_5(ctx):
         if isinstance(n, ast.Assign) and len(n.targets) == 1 and isinstance(n.targets[0], ast.Name):
             aliases[n.targets[0].id] = n.value
     bits_names = {k for k, v in aliases.items() if is_attr_of(v, "self", "_set_attributes")} | set()
+    vals_names = {k for k, v in aliases.items() if is_attr_of(v, "self", "_attributes")}
     words_emitted = set()
     for n in walk_local(strm.node):
         if not isinstance(n, ast.If):
@@ -994,8 +995,18 @@ def r6_5(ctx):
         for b in n.body:
             if isinstance(b, ast.Expr) and isinstance(b.value, ast.Call) and b.value.args and isinstance(b.value.args[0], ast.IfExp):
                 ie = b.value.args[0]
-                if is_attr_of(ie.test, "self") and isinstance(ie.body, ast.Constant) and isinstance(ie.orelse, ast.Constant):
-                    name = ie.test.attr
+                # the value of the attribute: the descriptor read self.<name>, or its bit in the value mask (vals & 2**k)
+                tname = ie.test.attr if is_attr_of(ie.test, "self") else None
+                if tname is None and isinstance(ie.test, ast.BinOp) and isinstance(ie.test.op, ast.BitAnd):
+                    l_, r_ = ie.test.left, ie.test.right
+                    if const_int(l_) is not None:
+                        l_, r_ = r_, l_
+                    kbit = const_int(r_)
+                    if ((isinstance(l_, ast.Name) and l_.id in vals_names) or is_attr_of(l_, "self", "_attributes")) and kbit is not None and kbit > 0 and kbit & (kbit - 1) == 0:
+                        inv = {v_: k_ for k_, v_ in bits.items()}
+                        tname = inv.get(kbit.bit_length() - 1, f"<bit {kbit.bit_length() - 1}>")
+                if tname is not None and isinstance(ie.body, ast.Constant) and isinstance(ie.orelse, ast.Constant):
+                    name = tname
                     where = f"{sm.relpath}:{b.lineno}"
                     count += 1
                     if name not in bits:
